@@ -21,36 +21,8 @@ type Case struct {
 	ExtraFirst bool   `json:"extra_first,omitempty"`
 }
 
-// buildAfterDelete registers set and extra, then deletes extra.
 func buildAfterDelete(set []rsx.RouteSpec, extra string, first bool) (*rsx.Env, error) {
-	e := rsx.NewEnv(rsx.Profile{})
-	e.Set = set
-	addExtra := func() error {
-		_, err := e.F.Handle("GET", extra, e.Handler(len(set)))
-		return err
-	}
-	if first {
-		if err := addExtra(); err != nil {
-			return nil, err
-		}
-	}
-	for i, s := range set {
-		rt, err := e.F.Handle(s.Method, s.Pattern, e.Handler(i), rsx.RouteOpts(i, s)...)
-		if err != nil {
-			return nil, err
-		}
-		e.Routes = append(e.Routes, rt)
-	}
-	if !first {
-		if err := addExtra(); err != nil {
-			return nil, err
-		}
-	}
-	if _, err := e.F.Delete("GET", extra); err != nil {
-		return nil, err
-	}
-	e.BuildRef()
-	return e, nil
+	return rsx.BuildAfterDelete(set, "GET", extra, first, rsx.Profile{})
 }
 
 // hostMatches reports whether the (stripped) request host equals the host pattern label for
